@@ -23,6 +23,9 @@ from ..cfg import must_facts, holds
 from ..rules import callers_of, references_to, event_facts, node_calls, node_assigns, is_true, is_false, is_none
 from ..mutate import mutate, remove_stmts, replace_expr, replace_stmt, parse_stmt, parse_expr
 from ..model import AnalysisError
+from ..x_syncnorm import normalized
+
+NORM_MODULES = ("tornado/locks.py", "tornado/queues.py", "tornado/gen.py", "tornado/concurrent.py", "tornado/ioloop.py", "tornado/platform/asyncio.py")
 from .. import x_tdeval as tdeval
 from ..x_sync import check_none_tests, own_walk, own_find, node_counts, method_call_on, exit_states, guard_models
 
@@ -288,6 +291,7 @@ def check_period(ck):
 
 
 def run(ck):
+    ck.repo = normalized(ck.repo, NORM_MODULES)  # alias / named-boolean / temporary / setter-helper normalisation (vt/x_syncnorm.py)
     ck.rule("C39.schedule-sites", "_schedule_next is called only from start() and from the finally block of _run (after the callback and its awaitable finished); callback errors are logged and swallowed")
     ck.rule("C39.running", "_run invokes the callback only while _running; _schedule_next arms exactly one timer while _running and none otherwise; _running has no other writers than __init__/start/stop")
     ck.rule("C39.timer", "the timer is add_timeout(_next_timeout, _run), armed after _update_next(now), its handle kept in _timeout")
